@@ -62,16 +62,34 @@ Proof.
   intros c a. destruct (da_sig a) eqn:E; [|discriminate]. eapply verify_agg_some_np; eauto.
 Qed.
 
-Lemma verify_any_qc_np : forall c e q a, g_agg_any (c_g c) = true -> verify_any_qc c e q a <> Panic.
+(* QuorumCert.Equals is total: whatever the signatures (present or nil), views, hashes and bytes *)
+Lemma qc_equals_total : forall g vh a b same, g_equals g = true -> qc_equals g vh a b same <> Panic.
 Proof.
-  intros c e q a G. unfold verify_any_qc. rewrite G.
+  intros g vh a b same G. unfold qc_equals. rewrite G.
+  destruct vh, a, b; cbn; discriminate.
+Qed.
+
+(* ... it is reflexive-compatible and symmetric in signature presence: nil vs. present never compares equal *)
+Lemma qc_equals_nil_mismatch : forall g vh a b same,
+  g_equals g = true -> a <> b -> qc_equals g vh a b same = Ok false.
+Proof.
+  intros g vh a b same G H. unfold qc_equals. rewrite G.
+  destruct vh, a, b; cbn; try reflexivity; congruence.
+Qed.
+
+Lemma verify_any_qc_np : forall c e q a,
+  g_agg_any (c_g c) = true -> g_equals (c_g c) = true -> verify_any_qc c e q a <> Panic.
+Proof.
+  intros c e q a G G5. unfold verify_any_qc. rewrite G.
   pose proof (verify_qc_np c q) as Hq.
   destruct (c_aggqc c); [|exact Hq].
   destruct a as [a|]; [|exact Hq].
   pose proof (guarded_agg_np c a) as Ha.
   destruct (match da_sig a with None => Ok false | Some _ => verify_agg c a end) as [[|]| |];
     try congruence; try discriminate.
-  destruct (e_qc_match e); [exact Hq|discriminate].
+  pose proof (qc_equals_total (c_g c) (e_qc_match e) (match dq_sig q with None => false | Some _ => true end)
+                (e_hq_signed e) (e_sig_same e) G5) as He.
+  destruct (qc_equals _ _ _ _ _) as [[|]| |]; try congruence; try discriminate; try exact Hq.
 Qed.
 
 Lemma verify_sync_np : forall c s,
@@ -108,15 +126,15 @@ Proof.
 Qed.
 
 Lemma on_propose_np : forall c e blk agg,
-  g_tc (c_g c) = true -> g_agg_sync (c_g c) = true -> g_agg_any (c_g c) = true ->
+  g_tc (c_g c) = true -> g_agg_sync (c_g c) = true -> g_agg_any (c_g c) = true -> g_equals (c_g c) = true ->
   on_propose c e (Build_dproposal (Some blk) agg) <> Panic.
 Proof.
-  intros c e blk agg G1 G2 G3. unfold on_propose. cbn [dp_block dp_agg].
+  intros c e blk agg G1 G2 G3 G5. unfold on_propose. cbn [dp_block dp_agg].
   pose proof (advance_view_np c (Build_dsync (Some (db_qc blk)) None None) G1 G2) as Ha.
   destruct (advance_view c _) as [v1| |]; try congruence; try discriminate.
   destruct (e_view_ok e); cbn [negb]; [|discriminate].
   destruct (e_vote_rule e); cbn [negb]; [|discriminate].
-  pose proof (verify_any_qc_np c e (db_qc blk) agg G3) as Hv.
+  pose proof (verify_any_qc_np c e (db_qc blk) agg G3 G5) as Hv.
   destruct (verify_any_qc c e (db_qc blk) agg) as [[|]| |]; try congruence; try discriminate.
   destruct (e_leader_ok e); discriminate.
 Qed.
@@ -179,6 +197,7 @@ Proof.
   assert (G2 : g_agg_sync (c_g c) = true) by (rewrite G; reflexivity).
   assert (G3 : g_agg_any (c_g c) = true) by (rewrite G; reflexivity).
   assert (G4 : g_bitfield (c_g c) = true) by (rewrite G; reflexivity).
+  assert (G5 : g_equals (c_g c) = true) by (rewrite G; reflexivity).
   destruct m as [p|v|s|t|h|k]; cbn [handle].
   - unfold srv_propose. destruct ctx_ok; cbn [negb]; [|discriminate].
     destruct (p_block p) as [b|] eqn:Eb.
@@ -309,7 +328,7 @@ Proof.
   intros c e q agg H. unfold verify_any_qc.
   destruct (c_aggqc c); [|exact H]. destruct agg as [a|]; [|exact H].
   destruct (if g_agg_any (c_g c) then _ else _) as [[|]| |]; try discriminate.
-  destruct (e_qc_match e); [exact H|discriminate].
+  destruct (qc_equals _ _ _ _ _) as [[|]| |]; try discriminate; try exact H.
 Qed.
 
 Theorem unverifiable_not_passed : forall c e ctx_ok m,
@@ -385,9 +404,12 @@ Definition set_guard (i : nat) (v : bool) (g : guards) : guards :=
     (match i with 4%nat => v | _ => g_agg_any g end)
     (match i with 5%nat => v | _ => g_agg_sync g end)
     (match i with 6%nat => v | _ => g_cache g end)
-    (match i with 7%nat => v | _ => g_bitfield g end).
+    (match i with 7%nat => v | _ => g_bitfield g end)
+    (match i with 8%nat => v | _ => g_equals g end).
 
-Definition env_all := Build_env true true true true true true.
+Definition env_all := Build_env true true true true true true true true.
+(* a proposal whose block QC agrees with a signed high QC in view and hash but has no signature *)
+Definition env_signed_hq := Build_env true true true true true true true false.
 Definition mkcfg s cache agg g := Build_cfg s cache agg false 3 g.
 
 (* one witness per guard: with only that guard removed a wire message (or a nil argument of a
@@ -400,6 +422,17 @@ Definition w_agg_any :=
   MPropose (Build_wproposal (Some (Build_wblock (Some (Build_wqc None 0 HGenesis)) 1 false false))
                             (Some (Build_wagg [] None 0))).
 Definition w_cache := MTimeout (Build_wtimeout 1 None None None false false false).
+(* a proposal with a genuine aggregate QC and a block QC that names the block and view of its signed
+   high QC without a signature (env_signed_hq), or a signed QC where the high QC is the genesis QC *)
+Definition w_equals :=
+  MPropose (Build_wproposal (Some (Build_wblock (Some (Build_wqc None 1 HKnown)) 2 true true))
+                            (Some (Build_wagg [(1, Build_wqc (Some (Some (WMultiE 3 true))) 1 HKnown)]
+                                              (Some (Some (WMultiE 3 true))) 1))).
+Definition w_equals' :=
+  MPropose (Build_wproposal (Some (Build_wblock (Some (Build_wqc (Some (Some (WMultiE 1 false))) 0 HGenesis)) 2 true true))
+                            (Some (Build_wagg [(1, Build_wqc None 0 HGenesis)]
+                                              (Some (Some (WMultiE 3 true))) 1))).
+Definition env_unsigned_hq := Build_env true true true false false true true true.
 (* a timeout with a valid single BLS view signature from a peer whose id is 0 *)
 Definition w_bitfield := MTimeout (Build_wtimeout 1 None (Some (Some (WBls true 1 true))) None true false false).
 
@@ -411,8 +444,16 @@ Theorem guards_needed :
   handle (mkcfg Ecdsa false true (set_guard 4 false all_guards)) env_all true w_agg_any = Panic /\
   handle (mkcfg Ecdsa false true (set_guard 5 false all_guards)) env_all true w_agg_sync = Panic /\
   handle (mkcfg Ecdsa true false (set_guard 6 false all_guards)) env_all true w_cache = Panic /\
-  handle (mkcfg Bls false false (set_guard 7 false all_guards)) env_all false w_bitfield = Panic.
+  handle (mkcfg Bls false false (set_guard 7 false all_guards)) env_all false w_bitfield = Panic /\
+  handle (mkcfg Ecdsa false true (set_guard 8 false all_guards)) env_signed_hq true w_equals = Panic /\
+  handle (mkcfg Ecdsa false true (set_guard 8 false all_guards)) env_unsigned_hq true w_equals' = Panic.
 Proof. vm_compute. repeat split; reflexivity. Qed.
+
+(* with the nil check in Equals both proposals are rejected without touching the state *)
+Theorem equals_witnesses_guarded :
+  handle (mkcfg Ecdsa false true all_guards) env_signed_hq true w_equals = Ok Dropped /\
+  handle (mkcfg Ecdsa false true all_guards) env_unsigned_hq true w_equals' = Ok Dropped.
+Proof. vm_compute. split; reflexivity. Qed.
 
 (* the same witnesses are harmless in the repaired code: those in which nothing verifies are dropped *)
 Theorem witnesses_guarded :
